@@ -23,6 +23,11 @@ GLOBAL_VERSION = L.field_pred(name="_version", rec_re=r"^babylon::Epoch$")
 UMAX = 2 ** 64 - 1
 
 
+DEPENDS = {
+    "C04": "the per-thread version slots live in a ConcurrentVector",
+    "C14": "slots are addressed by ThreadId / IdAllocator values",
+}
+
 def units(tier):
     return [driver("epoch_gc.cc")]
 
